@@ -432,16 +432,16 @@ class ConfigParser(object):
     self._check_for_duplicate_pairs()
     self._check_for_duplicate_table_forms()
 
-  def _check_for_duplicate_pairs(self):
+  def _check_for_duplicate_pairs(self, section_name = "Pair"):
     """Check the config parser for duplicate pair entries"""
 
-    if self._config_parser.has_section("Pair"):
+    if self._config_parser.has_section(section_name):
       seen = set()
-      for k in self._config_parser["Pair"]:
+      for k in self._config_parser[section_name]:
         p = self._pair_species_func(k)
         rev_p = tuple(reversed(list(p)))
         if (p in seen) or (rev_p in seen):
-          raise ConfigParserDuplicateEntryException("Multiple entries for the pair {A}-{B} found in [Pair] section.".format(A= p[0], B=p[1]))
+          raise ConfigParserDuplicateEntryException("Multiple entries for the pair {A}-{B} found in [{section_name}] section.".format(A= p[0], B=p[1], section_name = section_name))
         seen.add(p)
 
   def _check_for_duplicate_table_forms(self):
@@ -618,6 +618,9 @@ class ConfigParser(object):
 
     :returns: List of tuples of (SpeciesPair, potential_form_label, params)
       Where params = [p1, p2, ..., pn] and p1 etc are the potential parameters"""
+    if section_name != "Pair":
+      # [Pair] itself is checked when the file is read
+      self._check_for_duplicate_pairs(section_name)
     return self._parse_params_section(section_name, self._parse_pair_line)
 
   @property
